@@ -15,6 +15,18 @@ P = gen.P
 
 # ------------------------------------------------------------------ workloads
 
+def api_variants(p, o, api, fin, cb, probe):
+    """"mixed" = every symbol but one goes through of_set_available_symbols, the last one arrives afterwards: once the
+    highest and once the lowest ESI of the set (the table may then already hold k symbols or more)"""
+    if api != "mixed":
+        return [gen.decode_exec(p, o, api=api, finish=fin, cb=cb, probe=probe)]
+    if not o:
+        return []
+    srt = sorted(o)
+    return [gen.decode_exec(p, oo, api="mixed", finish=fin, cb=cb, probe=probe, mixed_cut=len(oo) - 1)
+            for oo in (srt, list(reversed(srt)))]
+
+
 def ldpc_exhaustive(pts, rng, apis=("recv",), finish=(True,), cbs=(None,), orders=1, probe="each", maxsub=None):
     execs = []
     for p in pts:
@@ -27,7 +39,7 @@ def ldpc_exhaustive(pts, rng, apis=("recv",), finish=(True,), cbs=(None,), order
                 for api in apis:
                     for fin in finish:
                         for cb in cbs:
-                            execs.append(gen.decode_exec(p, o, api=api, finish=fin, cb=cb, probe=probe))
+                            execs += api_variants(p, o, api, fin, cb, probe)
     return execs
 
 
@@ -42,7 +54,7 @@ def rs_exhaustive(pts, rng, apis=("recv",), cbs=(None,), orders=1, probe="each",
                 for api in apis:
                     for cb in cbs:
                         for fin in finish:
-                            execs.append(gen.decode_exec(p, o, api=api, finish=fin, cb=cb, probe=probe))
+                            execs += api_variants(p, o, api, fin, cb, probe)
     return execs
 
 
@@ -73,6 +85,15 @@ def cb_timing(rng, cb):
     if x < 0.2:
         return {"cb_replace": rng.choice([m for m in ("buf", "null", "mix") if m != cb.split(" ")[0]])}
     return {}
+
+
+def mixed_cut(rng, api, sub):
+    """how many of the symbols go through of_set_available_symbols in a mixed history: often all but one or two (the
+    table may then already hold k symbols or more), else any number"""
+    if api != "mixed":
+        return {}
+    n = len(sub)
+    return {"mixed_cut": rng.choice([n - 1, n - 1, n - 2, n // 2, rng.randint(0, n)])}
 
 
 def pick_len(rng, n):
@@ -115,7 +136,7 @@ def random_ldpc(rng, count, kmax, cbs=(None,), apis=("recv", "setavail"), payloa
         cbm = rng.choice(cbs)
         execs.append(gen.decode_exec(p, sub, api=api, finish=fin, cb=cbm,
                                      probe=rng.choice(probe_choices) if n <= 40 else "end",
-                                     refinish=fin and rng.random() < 0.3, **both_role(rng, p), **cb_timing(rng, cbm)))
+                                     refinish=fin and rng.random() < 0.3, **both_role(rng, p), **cb_timing(rng, cbm), **mixed_cut(rng, api, sub)))
     return execs
 
 
@@ -230,7 +251,7 @@ def random_rs(rng, count, nmax, cbs=(None,), apis=("recv", "setavail"), payloads
         payload = rng.choice(payloads)
         length = gen.need_len(c, k, m) + rng.choice([0, 0, 1, 5, 11, 16, 23, 40]) if payload == "id" else pick_len(rng, n)
         p = P(c, k, n - k, m=m, length=length, payload=payload, align=rng.choice([0, 0, 1, 2, 7]))
-        cnt = rng.choice([k, k, k + 1, max(0, k - 1), rng.randint(0, n)])
+        cnt = rng.choice([k, k, k + 1, k + 2, max(0, k - 1), rng.randint(0, n)])
         cnt = min(cnt, n)
         sub = rng.sample(range(n), cnt)
         if rng.random() < 0.3 and sub:
@@ -244,7 +265,7 @@ def random_rs(rng, count, nmax, cbs=(None,), apis=("recv", "setavail"), payloads
         cbm = rng.choice(cbs)
         execs.append(gen.decode_exec(p, sub, api=api, finish=fin, cb=cbm,
                                      probe="each" if n <= 12 else "end",
-                                     refinish=fin and rng.random() < 0.3, **both_role(rng, p), **cb_timing(rng, cbm)))
+                                     refinish=fin and rng.random() < 0.3, **both_role(rng, p), **cb_timing(rng, cbm), **mixed_cut(rng, api, sub)))
     return execs
 
 
@@ -466,6 +487,7 @@ def workload(pid, tier, rng):
         execs += threshold_ldpc(rng, 150 if q else 3000, mid=True, cbs=cbs_all)
     elif pid == "C02":
         execs += rs_exhaustive(rs_small, rng, apis=("recv", "setavail"), orders=2 if q else 4, probe="each")
+        execs += rs_exhaustive(rs_small, rng, apis=("mixed",), orders=1, probe="end")
         execs += rs_exhaustive(rs_mid, rng, apis=("recv", "setavail"), orders=1, probe="end", maxsub=150 if q else 1500)
         execs += random_rs(rng, 300 if q else 20000, 255)
         # the MDS argument rests on the generator being V_rest * V_top^-1: one (T: four) repair row(s) of EVERY k,
@@ -500,7 +522,7 @@ def workload(pid, tier, rng):
         execs += [e for e in big_ldpc(rng, [450, 800] if q else [450, 800, 1500, 3000], finish=False)]
     elif pid == "C10":
         execs += ldpc_exhaustive(ld_small[:4 if q else 8], rng, apis=("recv", "setavail"), finish=(True,), orders=1, probe="each")
-        execs += rs_exhaustive(rs_small, rng, apis=("recv", "setavail"), orders=1, probe="each")
+        execs += rs_exhaustive(rs_small, rng, apis=("recv", "setavail", "mixed"), orders=1, probe="each")
         for p in ld_small[:4] + rs_small[:12]:
             full = list(range(p.n))
             execs.append(gen.decode_exec(p, full, finish=True, probe="each", query_first=True, double_finish=True))
@@ -513,7 +535,7 @@ def workload(pid, tier, rng):
     elif pid == "C11":
         execs += ldpc_exhaustive(ld_small[:4 if q else 8], rng, apis=("recv", "setavail"), finish=(True,),
                                  cbs=CB11, orders=1, probe="end")
-        execs += rs_exhaustive(rs_small[:30 if q else None], rng, apis=("recv", "setavail"), cbs=CB11,
+        execs += rs_exhaustive(rs_small[:30 if q else None], rng, apis=("recv", "setavail", "mixed"), cbs=CB11,
                                orders=1, probe="end")
         execs += random_ldpc(rng, 600 if q else 25000, 40 if q else 64, cbs=CB11)
         execs += dense_ldpc(rng, 300 if q else 12000, cbs=CB11, finish_choices=(True, False), probe="end")
